@@ -31,6 +31,20 @@ count, clock, environment, directory names.
   `depLoop`, `getDeps`, `getPackageWithDependencies`, `resolve`); `resolve_order_dependent_pinned`
   is the concrete negation for the pinned comparator.
   Lemmas: `Proofs/Lemmas/Comparator{Order,Lex,Min,NameMap,Dq,Deps,Resolve}.lean`.
+* Goroutine completion order of `GetRepositoryIndexes` (one goroutine per repository line; model
+  `IndexOrder.collectPositional` with the completion order as the adversarial `schedule`):
+  `collect_schedule_independent` (every schedule in which each goroutine finishes gives the indexes in the order of
+  the repository lines), `collect_perm_invariant`, `resolverInput_schedule_independent` (what `NewPkgResolver` is
+  handed is `Glue.indexesOf`: one index per line of the sorted set of lines), `resolve_schedule_independent`;
+  `resolve_index_order_matters` (the position of an index DOES decide a tie between two repositories offering
+  one name and version, so the position must come from the configuration) and
+  `collectAppend_schedule_dependent` / `resolve_append_schedule_dependent` (collecting in completion order is not
+  a function of the inputs).  `tie_getRepositoryIndexes_positional`: the statements that fix the positions,
+  regenerated from index.go.
+* The scratch directory: `emitted_scratch_independent` (model `IndexOrder.emitted`), its negation for a
+  configuration that registers the base image's index as a build repository
+  (`emittedRegistered_scratch_dependent`), `tie_scratchUses` (every read of `TempDir()` / `APKIndexPath()` in
+  pkg/build and pkg/baseimg is one of the audited ones), `tie_buildRepos_sortedSet`.
 * What the model cannot exhibit (partial): the Go scheduler, pgzip, the runtime's map order, and the
   third-party tarball writer are exercised by the correspondence suite `repro` only (child processes
   under different GOMAXPROCS / TZ / umask / cwd / TMPDIR / environment / cache histories, every output
@@ -40,6 +54,9 @@ import Apko.Model.Resolver
 import Apko.Generated.Sites
 import Apko.Proofs.Lemmas.AuditedSites
 import Apko.Proofs.Lemmas.ComparatorResolve
+import Apko.Proofs.Lemmas.IndexOrder
+import Apko.Generated.IndexOrder
+import Apko.Generated.Glue
 
 namespace Apko.C01
 open Apko
@@ -508,5 +525,149 @@ example : (f08bCfg .eq).bothBad = .eq ∧
     installedIds (Resolver.resolve { f08bCfg .eq with order := ["pa".toList, "pb".toList] } ["virt".toList] []) = [0] ∧
     installedIds (Resolver.resolve { f08bCfg .eq with order := ["pb".toList, "pa".toList] } ["virt".toList] []) = [0] := by
   decide
+
+/-! ## goroutine completion order of `GetRepositoryIndexes` -/
+
+open IndexOrder in
+/-- T `collect_schedule_independent`: whatever the order in which the per-repository goroutines finish (any list of
+completion events in which every position occurs — repeated events included), the list `GetRepositoryIndexes`
+returns is the list of the indexes that exist in the order of the repository LINES. -/
+theorem collect_schedule_independent {α : Type} (n : Nat) (fetch : Nat → Option α) (schedule : List Nat)
+    (h : IsSchedule n schedule) : collectPositional n fetch schedule = inLineOrder n fetch := by
+  unfold collectPositional inLineOrder
+  rw [slots_final n fetch schedule h, compact_map]
+
+open IndexOrder in
+/-- T `collect_perm_invariant`: any two permutations of the completion events give the same list. -/
+theorem collect_perm_invariant {α : Type} (n : Nat) (fetch : Nat → Option α) (s₁ s₂ : List Nat)
+    (h₁ : s₁.Perm (List.range n)) (h₂ : s₂.Perm (List.range n)) :
+    collectPositional n fetch s₁ = collectPositional n fetch s₂ := by
+  rw [collect_schedule_independent n fetch s₁ (isSchedule_of_perm n s₁ h₁),
+    collect_schedule_independent n fetch s₂ (isSchedule_of_perm n s₂ h₂)]
+
+open IndexOrder in
+/-- the full statement for a collection discipline `collect`: its result does not depend on the schedule -/
+def ScheduleIndependent (collect : (Nat → Option Nat) → List Nat → List Nat) : Prop :=
+  ∀ (fetch : Nat → Option Nat) (s₁ s₂ : List Nat), s₁.Perm s₂ → collect fetch s₁ = collect fetch s₂
+
+open IndexOrder in
+/-- collecting with `append` under a mutex (completion order) agrees with the line order under the in-order
+schedule — which is why a single run, or GOMAXPROCS=1, does not show the difference … -/
+theorem collectAppend_in_order {α : Type} (n : Nat) (fetch : Nat → Option α) :
+    collectAppend fetch (List.range n) = inLineOrder n fetch := rfl
+
+open IndexOrder in
+/-- … but it is not a function of the inputs: the negation of the full statement for `collectAppend`. -/
+theorem collectAppend_schedule_dependent : ¬ ScheduleIndependent collectAppend := by
+  intro h
+  have := h some [0, 1] [1, 0] (List.Perm.swap _ _ _)
+  revert this
+  decide
+
+open IndexOrder in
+/-- T `resolverInput_schedule_independent`: for the repository lines as written and the indexes they publish, the
+universe handed to `NewPkgResolver` is `Glue.indexesOf lines u` — one index per distinct line, in the order of the
+sorted set of lines — for every schedule. -/
+theorem resolverInput_schedule_independent (lines : List Text) (u : Universe) (schedule : List Nat)
+    (h : IsSchedule (Glue.sortedSet lines).length schedule) :
+    resolverInput lines u schedule = Glue.indexesOf lines u := by
+  unfold resolverInput
+  rw [collect_schedule_independent _ _ schedule h]
+  unfold inLineOrder Glue.indexesOf
+  exact filterMap_range_getElem? (Glue.sortedSet lines) (Glue.indexOf lines u)
+
+open IndexOrder in
+/-- T `resolve_schedule_independent`: hence a whole resolution (any configuration built from the universe) is the
+same under any two schedules. -/
+theorem resolve_schedule_independent (lines : List Text) (u : Universe) (s₁ s₂ : List Nat)
+    (h₁ : IsSchedule (Glue.sortedSet lines).length s₁) (h₂ : IsSchedule (Glue.sortedSet lines).length s₂)
+    (mk : Universe → Resolver.Cfg) (world : List Text) (dq₀ : List Nat) :
+    Resolver.resolve (mk (resolverInput lines u s₁)) world dq₀ =
+      Resolver.resolve (mk (resolverInput lines u s₂)) world dq₀ := by
+  rw [resolverInput_schedule_independent lines u s₁ h₁, resolverInput_schedule_independent lines u s₂ h₂]
+
+/-- two repositories offering `p-1.0-r0` (other file: other id) -/
+def tieA : Index := ⟨[], "a".toList, [⟨0, "p".toList, "1.0-r0".toList, [], "a".toList, [], 0, [], [], []⟩]⟩
+def tieB : Index := ⟨[], "b".toList, [⟨1, "p".toList, "1.0-r0".toList, [], "b".toList, [], 0, [], [], []⟩]⟩
+
+def tieCfg (u : Universe) : Resolver.Cfg := ⟨u, Resolver.ownNames u, .eq, true, id⟩
+
+/-- T `resolve_index_order_matters`: the position of an index in the list DOES reach the result — two
+repositories offering one name and version tie under `comparePackages`, and the first in the list wins.  So the
+list order has to be a function of the configuration (it is: `resolverInput_schedule_independent`). -/
+theorem resolve_index_order_matters :
+    installedIds (Resolver.resolve (tieCfg [tieA, tieB]) ["p".toList] []) = [0] ∧
+    installedIds (Resolver.resolve (tieCfg [tieB, tieA]) ["p".toList] []) = [1] := by
+  decide
+
+open IndexOrder in
+/-- … and collecting in completion order lets the schedule choose the package: the same two lines, the same two
+indexes, two schedules, two different installations. -/
+theorem resolve_append_schedule_dependent :
+    installedIds (Resolver.resolve (tieCfg (collectAppend (fun i => [tieA, tieB][i]?) [0, 1])) ["p".toList] []) ≠
+    installedIds (Resolver.resolve (tieCfg (collectAppend (fun i => [tieA, tieB][i]?) [1, 0])) ["p".toList] []) := by
+  decide
+
+/-- non-vacuity: a schedule that is not the line order, a missing local index in the middle (compaction), and
+the positional collection still gives the line order while the appending one does not. -/
+example :
+    let fetch : Nat → Option Nat := fun i => if i = 1 then none else some (10 * i)
+    IndexOrder.IsSchedule 3 [2, 1, 0] ∧
+    IndexOrder.collectPositional 3 fetch [2, 1, 0] = [0, 20] ∧
+    IndexOrder.collectAppend fetch [2, 1, 0] = [20, 0] := by
+  refine ⟨⟨?_, ?_⟩, by decide, by decide⟩
+  · intro i hi; simp; omega
+  · intro i hi; simp at hi; omega
+
+/-- the statements of `GetRepositoryIndexes` that fix the position of every index: one slot per line, the store at
+the goroutine's own position `i` (the key of the range over `repos`), nothing but the compaction and the return
+behind `eg.Wait()`, a missing local index leaves its slot nil (`IndexOrder.complete`, `.compact`) -/
+theorem tie_getRepositoryIndexes_positional :
+    Generated.griIndexesStmts =
+      ["indexes := make([]NamedIndex, len(repos))",
+       "indexes[i] = index",
+       "indexes = slices.DeleteFunc(indexes, func(idx NamedIndex) bool { return idx == nil })",
+       "return indexes, nil"] ∧
+    Generated.griRange = "i, repo := range repos" ∧
+    Generated.griFetch = "globalIndexCache.get(ctx, repoName, repoURL, keys, arch, opts)" ∧
+    Generated.griMissingLocal.getLast? = some "return nil" ∧
+    Generated.griAfterLoop =
+      ["if err := eg.Wait(); err != nil { return nil, err }",
+       "indexes = slices.DeleteFunc(indexes, func(idx NamedIndex) bool { return idx == nil })",
+       "return indexes, nil"] := ⟨rfl, rfl, rfl, rfl, rfl⟩
+
+/-! ## the scratch directory -/
+
+open IndexOrder in
+/-- T `emitted_scratch_independent`: what the image carries of the repositories (/etc/apk/repositories,
+/etc/apko.json) is the same for every scratch directory. -/
+theorem emitted_scratch_independent (b : BuildIn) (scratch : Text) :
+    emitted { b with scratch := scratch } = emitted b := rfl
+
+open IndexOrder in
+/-- … although the scratch directory IS among the repositories of the resolution when there is a base image
+(non-vacuity: the model has the flow that must not reach the image). -/
+theorem scratch_reaches_resolution (b : BuildIn) (h : b.hasBase = true) :
+    apkIndexPath b.scratch ∈ resolveRepos b := by
+  unfold resolveRepos; simp [h]
+
+open IndexOrder in
+/-- negation for the variant that registers the base image's index in the configuration: /etc/apko.json then
+differs between two scratch directories. -/
+theorem emittedRegistered_scratch_dependent :
+    ¬ ∀ (b : BuildIn) (scratch : Text), emittedRegistered { b with scratch := scratch } = emittedRegistered b := by
+  intro h
+  have := h ⟨[], [], true, "/tmp/a".toList⟩ "/tmp/b".toList
+  revert this
+  decide
+
+/-- every read of the scratch directory in pkg/build and pkg/baseimg is one of the audited ones (none stores it
+in `bc.ic` or in the image) -/
+theorem tie_scratchUses : Generated.scratchUses = IndexOrder.auditedScratchUses := rfl
+
+/-- the repositories of the resolution start from the sorted set of the configured lines (`IndexOrder.resolveRepos`,
+`Glue.indexesOf`) -/
+theorem tie_buildRepos_sortedSet : Generated.buildReposExpr =
+    "sets.List( sets.New(bc.ic.Contents.BuildRepositories...). Insert(bc.ic.Contents.RuntimeRepositories...). Insert(bc.o.ExtraBuildRepos...). Insert(bc.o.ExtraRuntimeRepos...), )" := by rfl
 
 end Apko.C01
